@@ -1,4 +1,4 @@
-import BSModel.Proofs.Depth
+import BSModel.Proofs.DepthEvents
 /-! # C11 — working with a tree never recurses on its depth            (PARTIAL: interpreter stack measured)
 
 Property theorems only. **These are theorems about an accounting of the code's call graph** (`Model/Depth.lean`: a
@@ -52,7 +52,51 @@ theorem parse_unbounded_if_only_outermost_pushed (deep : Nat) :
     endDataDepth, loop0, loopMax, call, cTokenizer, cTagInit]
   omega
 
-/-! ## 2. rendering -/
+/-! ## 2. `_event_stream`: the loop with its tag stack is the recursive skeleton, and what it compares is known -/
+
+/-- **Refinement of the anchor.** The statement-by-statement mirror of `_event_stream` (element.py:2480-2504: a `for`
+    over `self_and_descendants` in document order, the `while tag_stack and c.parent <cmp> tag_stack[-1]` pop loop, the
+    START/EMPTY/STRING cases, the final flush) yields, for EVERY tree and both variants of the test, exactly the
+    recursive skeleton: START, the children's events in order, END — EMPTY for an empty-element tag, STRING for a
+    string. (Identities are positions in document order; the correspondence runs the real generator on random bushy
+    trees against both sides.) -/
+theorem event_stream_refines_skeleton (cfg : Cfg) (t : Node) : (eventStreamImpl cfg t).1 = evSpecN 0 t :=
+  eventStreamImpl_events cfg t
+
+/-- The deepest comparison the loop makes is the recursive characterisation `evCmp` that the accountings of decode,
+    deepcopy and pickle are built on: when the child after `k` arrives, `c.parent` is compared with every tag `k`
+    left open on the stack (its right spine, deepest first: different objects) and then with itself. -/
+theorem event_stream_deepest_comparison (cfg : Cfg) (t : Node) : (eventStreamImpl cfg t).2 = evCmp cfg t :=
+  eventStreamImpl_cost cfg t
+
+/-- The same for the form in which the receiver itself is not iterated over (`decode_contents`, `__deepcopy__`, and
+    any hidden receiver — the BeautifulSoup object, which `_self_and` leaves out): the receiver is never on the stack. -/
+theorem event_stream_contents_refines (cfg : Cfg) (t : Node) :
+    (eventStreamContentsImpl cfg t).1 = evSpecL 1 (kidsOf t) ∧ (eventStreamContentsImpl cfg t).2 = evCmpContents cfg t :=
+  eventStreamContentsImpl_spec cfg t
+
+/-- With the identity test the loop makes no call at all, whatever the tree. -/
+theorem event_stream_identity_makes_no_call (cfg : Cfg) (h : cfg.neIdentity = true) (t : Node) :
+    (eventStreamImpl cfg t).2 = 0 ∧ (eventStreamContentsImpl cfg t).2 = 0 := by
+  rw [eventStreamImpl_cost, (eventStreamContentsImpl_spec cfg t).2, evCmp_id cfg h]
+  exact ⟨rfl, by simp [evCmpContents, evKidsTop_id cfg h]⟩
+
+/-- Two structurally equal trees have the same size: on the pairs `_event_stream` compares (an element's parent and a
+    tag still open below it — one properly contains the other) the structural `!=` and `is not` give the same
+    answer, so both variants yield the same events; they differ only in what the test costs. -/
+theorem structural_equality_forces_equal_size (a b : Node) (h : beqN a b = true) : sizeN a = sizeN b :=
+  beqN_sizeN a b h
+
+/-- `<a>t<b><br/></b><p>x</p></a>`: a void tag, a tag left open when its sibling arrives -/
+def demoTree : Node :=
+  .tag 1 0 true false [.str 2, .tag 2 0 true false [.tag 3 0 true true []], .tag 5 0 true false [.str 1]]
+example : (eventStreamImpl unrepaired demoTree).1 =
+    [.start 0, .string 1, .start 2, .empty 3, .end 2, .start 4, .string 5, .end 4, .end 0] := by decide
+example : (eventStreamImpl unrepaired demoTree).2 = 2 ∧ (eventStreamImpl repaired demoTree).2 = 0 := by decide
+example : (eventStreamContentsImpl repaired demoTree).1 =
+    [.string 1, .start 2, .empty 3, .end 2, .start 4, .string 5, .end 4] := by decide
+
+/-! ## 2b. rendering -/
 
 /-- `Tag.decode` with the identity test in `_event_stream` and the loop form of `_is_xml`: at most 6, for every tree,
     every receiver in it and every ancestor context. -/
@@ -71,6 +115,10 @@ theorem depth_bounded_render (cfg : Cfg) (h1 : cfg.neIdentity = true) (h2 : cfg.
     encodeDepth cfg l ≤ 7 ∧ prettifyDepth cfg l ≤ 8 ∧ strDepth cfg l ≤ 7 ∧ hashDepth cfg l ≤ 8 ∧
     decodeContentsDepth cfg l ≤ 7 ∧ encodeContentsDepth cfg l ≤ 8 ∧ docDecodeDepth cfg l ≤ 7 := by
   have := depth_bounded_decode cfg h1 h2 l
+  have hb : decodeBodyDepth cfg l ≤ 6 := by
+    have h := loopMax_le (descs l.anc l.node) renderPiece 5 (fun x _ => renderPiece_le x)
+    simp only [decodeBodyDepth, formatterForNameDepth, isXmlDepth_loop cfg h2, eventStreamContentsDepth_id cfg h1, call]
+    omega
   simp only [encodeDepth, prettifyDepth, strDepth, hashDepth, decodeContentsDepth, encodeContentsDepth, docDecodeDepth, call]
   omega
 
@@ -84,7 +132,7 @@ theorem depth_bounded_deepcopy (cfg : Cfg) (h1 : cfg.neIdentity = true) (h2 : cf
     deepcopyDepth cfg isDoc l ≤ 16 := by
   have ha := copySelfDepth_le cfg h2 isDoc l
   have hb := loopMax_le (descs l.anc l.node) (deepcopyPiece cfg) 15 (fun d _ => deepcopyPiece_le cfg h2 d)
-  simp only [deepcopyDepth, eventStreamDepth_id cfg h1, call]
+  simp only [deepcopyDepth, eventStreamContentsDepth_id cfg h1, call]
   omega
 
 /-- `copy.copy(x)` → `__copy__` → `__deepcopy__` -/
@@ -258,8 +306,8 @@ theorem deepcopyOld_pickleOld_unbounded (cfg : Cfg) (h : cfg.neIdentity = false)
   cases n with
   | zero => exact ⟨Nat.zero_le _, Nat.zero_le _⟩
   | succ n =>
-    have := evCmp_chainTT cfg h n
-    simp only [deepcopyDepth, pickleDepth, docDecodeDepth, decodeDepth, eventStreamDepth, atTop, call]
+    have := evCmpContents_chainTT cfg h n
+    simp only [deepcopyDepth, pickleDepth, docDecodeDepth, decodeBodyDepth, eventStreamContentsDepth, atTop, call]
     omega
 
 example : decodeDepth unrepaired (atTop (chainWithTrailingText 5)) = 12 := by decide
